@@ -338,4 +338,21 @@ def cookieLoop (L : LimitsD) (lib : LibD) (s : StD) (k : Nat) : StD × Outcome U
   | (s1, .panic) => (s1, .panic)
 termination_by s.mu
 
+/-- what the handshake / the application may do with the receive side of a datagram connection -/
+inductive OpD
+  | hs         -- c.readHandshake
+  | finish     -- the handshake completes: `clearPendingFragments`, state `stateFinished`
+  | read       -- one c.readRecord of Conn.Read (only once the handshake is complete; the
+               -- application has taken the data of the previous one)
+  deriving Repr, DecidableEq
+
+def applyD (L : LimitsD) (lib : LibD) (s : StD) : OpD → StD
+  | .hs => (readHandshake L lib s).1
+  | .finish => { s with complete := true, pending := [] }
+  | .read => if s.complete then (readRecord L lib { s with readBuf := 0 } false).1 else s
+
+def runD (L : LimitsD) (lib : LibD) (s : StD) : List OpD → StD
+  | [] => s
+  | op :: ops => runD L lib (applyD L lib s op) ops
+
 end Gotlcp.Model.ParsersLoopD
